@@ -40,6 +40,9 @@ class Profile:
     dyn_ratio: int = 3  # 1 in dyn_ratio connects asks for a dynamic id
     pipelining: bool = True
     max_pending_pubs: int = 6
+    setup_ops: list = field(default_factory=list)  # concrete ops executed first (monitors ...)
+    protected: tuple = ()  # connection indices that never leave, never fail and are always writable
+    fault_exact_only: bool = True  # inject write faults only where the model can predict the victim frame
 
     def codes(self):
         out = []
@@ -168,10 +171,12 @@ def resolve(w: World, raw, pf: Profile) -> Optional[dict]:
         if code == SETNAME:
             return {"op": "setname", "c": m.idx, "name": f"n{b % 7}"}
         if code == DISCONNECT:
+            if m.idx in pf.protected:
+                return None
             m.h_disconnect = True
             return {"op": "disconnect", "c": m.idx}
     if code == CLOSE:
-        live = [m for m in w.mods if not m.client_closed]
+        live = [m for m in w.mods if not m.client_closed and m.idx not in pf.protected]
         if not live:
             return None
         m = live[a % len(live)]
@@ -184,6 +189,19 @@ def resolve(w: World, raw, pf: Profile) -> Optional[dict]:
         if part:
             op["partial"] = part
         return op
+    if code == FAULT:
+        # a write to a live, connected client fails after `after` more bytes.  Only clients whose next
+        # incoming frame the model can predict: no acknowledgement pending, no manager-originated
+        # subscriptions, not a logger.
+        vict = [m for m in _usable(w) if m.idx not in pf.protected and m.connected and m.fault_left is None
+                and not m.queue and not m.logger and not m.A and not (m.S & World.MGR_TYPES) and m.S]
+        if not vict:
+            return None
+        m = vict[a % len(vict)]
+        hs = w.sim.hsize
+        pool = [0, 1, hs - 1, hs, hs + 1, hs + 7, hs + 8, hs + 63, hs + 64, 2 * hs + 8, 4 + (c % 200)]
+        m.h_disconnect = True  # the client does nothing more: its connection is about to die
+        return {"op": "fault", "c": m.idx, "after": pool[b % len(pool)], "exc": "epipe" if d % 2 == 0 else "reset"}
     if code == STEP:
         cand = w.ready_candidates()
         if not cand:
@@ -198,6 +216,7 @@ def resolve(w: World, raw, pf: Profile) -> Optional[dict]:
             wr = acc
         else:
             wr = [x for i, x in enumerate(acc) if ((c >> 2) >> i) & 1]
+        wr = sorted(set(wr) | {i for i in pf.protected if i < len(w.mods)})
         dt = pf.dts[d % len(pf.dts)]
         return {"op": "step", "ready": sel, "writable": wr, "dt": dt}
     return None
@@ -207,8 +226,13 @@ def run_history(cfg: dict, pf: Profile, raws, prop: str, setup_ops: Optional[lis
     """Execute one generated history; raises Violation.  Returns the world (closed)."""
     w = World(cfg, pf.oracles, prop)
     try:
-        for op in setup_ops or []:
+        for op in (setup_ops or []) + list(pf.setup_ops):
             w.apply(op)
+            if op["op"] == "connect":
+                m = w.mods[op["c"]]
+                m.h_connect, m.h_dynamic, m.h_id = True, op["id"] == 0, op["id"]
+        if pf.setup_ops:
+            w.drain()
         setup, subs, raws = raws
         for raw in setup:
             w.apply({"op": "open"})
@@ -226,6 +250,7 @@ def run_history(cfg: dict, pf: Profile, raws, prop: str, setup_ops: Optional[lis
             if op is not None:
                 w.apply(op)
         w.drain()
+        w.final_checks()
         return w
     finally:
         w.close()
@@ -236,6 +261,7 @@ def replay_history(trace: dict, prop: str) -> World:
     try:
         for op in trace["ops"]:
             w.apply(op)
+        w.final_checks()
         return w
     finally:
         w.close()
